@@ -198,7 +198,7 @@ PROPS = {
         filter=_token_filter(["token.roundtrip"]),
         technique="Lean 4 proofs that tokenFromModel∘toIPLD is the identity on every constructible delegation and invocation (all optional-field combinations, by case analysis closed with simp/omega), that the written payload conforms to the regenerated schema, and that unseal∘seal = id for any signature scheme with verify k m (sign m); tied by constructor-built tokens under every option mask × key algorithm × codec × decoder",
         level_text="C07_dlg_payload_roundtrip, C07_inv_payload_roundtrip, dlg_payload_conforms, C07_dlg_unseal_seal (delegations; the invocation envelope level is covered by the stream only), with C16_tables giving 'a key that can issue can be verified'. Go: 128 option masks (policy, metadata, extreme accepted time bounds, nonce, subject/powerline, audience, cause, iat) × Ed25519/secp256k1/P-256/P-384/P-521 (RSA thorough) × {DAG-CBOR, DAG-JSON} × {generic, typed}: every field of the unsealed token equals the constructed one at whole-second resolution.",
-        level_note=_TOKEN_NOTE + " The component round trips are hypotheses of the theorems (DID: C16_parse_print; command: C15_parse_ok_iff; policy: C14_policy_roundtrip + the not-yet-proved selector print/parse idempotence).",
+        level_note=_TOKEN_NOTE + " The component round trips are hypotheses of the theorems (DID: C16_parse_print; command: C15_parse_ok_iff; policy: C14_policy_roundtrip with C14_print_reparse for the selectors).",
     ),
     "C10": dict(
         tie=["Ucan.Props.Tie.ParseTime", "Ucan.Props.Tie.Command", "Ucan.Props.Tie.CommandApi", "Ucan.Props.Tie.Decode", "Ucan.Props.Tie.DecodeBridge", "Ucan.Props.Tie.Inspect", "Ucan.Props.Tie.FindTag", "Ucan.Props.Tie.Limits", "Ucan.Props.Tie.Args", "Ucan.Props.Tie.ParseDid"],
